@@ -555,6 +555,8 @@ def gen_plant(rng, g, cfg, name, power, heat, fuel, prices):
     a['max_cap'] = a['min_cap'] + k8(rng, 1, 6)
     if rng.random() < 0.6:
         a['ramp'] = max(a['min_cap'], k8(rng, 1, 5))
+        if rng.random() < cfg.get('p_ramp0', 0.0):
+            a['ramp'] = 0.0            # no change of output allowed from step to step while running
     r = rng.random()
     if r < 0.45:
         a['min_runtime'] = rng.randint(2, 4)
